@@ -184,6 +184,11 @@ class BGP(protocol.Protocol):
         """
         buf = self._receive_buffer
 
+        if self.disconnected:
+            # we are closing this connection: whatever else is buffered
+            # belongs to a session that is over
+            return False
+
         if len(buf) < bgp_cons.HDR_LEN:
             # Every BGP message is at least 19 octets. Maybe the rest
             # hasn't arrived yet.
